@@ -59,6 +59,36 @@ def make_script(cfg, rng):
     return "\n".join(L) + "\n"
 
 
+PAR = "LCD(rs=12, en=11, d4=5, d5=4, d6=3, d7=2)"
+REBIND = [  # (label, body, libraries the declared devices need, finding id or None)
+    ("button->servo", "dev = Button(2)\ndev = Servo(9)\ndev.write(90)\n", {"Servo"}, None),
+    ("i2c-lcd->servo", "dev = LCD(i2c_addr=39)\ndev.line(0, \"x\")\ndev = Servo(9)\ndev.write(90)\n", {"Servo", "LiquidCrystal_I2C"}, None),
+    ("servo->parallel-lcd", f"dev = Servo(9)\ndev.write(5)\ndev = {PAR}\ndev.line(0, \"x\")\n", {"Servo", "LiquidCrystal"}, None),
+    ("led->servo", "dev = Led(3)\ndev.on()\ndev = Servo(9)\ndev.write(10)\n", {"Servo"}, None),
+    ("pot->servo", "dev = Potentiometer(\"A0\")\ndev = Servo(9)\ndev.write(10)\n", {"Servo"}, None),
+    ("buzzer->parallel-lcd", f"dev = Buzzer(8)\ndev = {PAR}\ndev.line(0, \"x\")\n", {"LiquidCrystal"}, None),
+    ("button->servo-in-loop", "dev = Button(2)\nwhile True:\n    dev = Servo(9)\n    dev.write(90)\n    sleep(5)\n", {"Servo"}, None),
+    ("servo->servo", "a = Servo(9)\na = Servo(10)\na.write(5)\n", {"Servo"}, None),
+    ("servo->button", "dev = Servo(9)\ndev.write(5)\ndev = Button(2)\n", {"Servo"}, None),
+    ("two-names", f"a = Button(2)\nb = Servo(9)\nc = {PAR}\nb.write(1)\n", {"Servo", "LiquidCrystal"}, None),
+    ("parallel-lcd->i2c-lcd", f"dev = {PAR}\ndev = LCD(i2c_addr=39)\ndev.line(0, \"x\")\n", {"LiquidCrystal", "LiquidCrystal_I2C"}, "KF-lcd-rebind-other-interface"),
+    ("i2c-lcd->parallel-lcd", f"dev = LCD(i2c_addr=39)\ndev = {PAR}\ndev.line(0, \"x\")\n", {"LiquidCrystal", "LiquidCrystal_I2C"}, "KF-lcd-rebind-other-interface"),
+]
+
+
+def run_rebind(case):
+    label, body, want, fid = case
+    script = HDR + body
+    out = {"script": script, "label": label, "want": sorted(want), "finding": fid}
+    try:
+        libs, incs, lib_incs, classes, cpp = views(script)
+    except (ValueError, SyntaxError) as e:
+        out["rejected"] = str(e)
+        return out
+    out.update(libs=libs, lib_incs=lib_incs, classes=classes, cpp=cpp, ini_libs=ini_libs(libs, cpp, len(label)))
+    return out
+
+
 def views(script):
     use_repo()
     import Reduino
@@ -74,7 +104,11 @@ def views(script):
     return libs, incs, lib_incs, classes, cpp
 
 
-def ini_libs(libs, cpp):
+PLATFORMS = [("atmelavr", "uno"), ("atmelmegaavr", "nano_every"), ("atmelavr", "leonardo"), ("atmelmegaavr", "uno_wifi_rev2"), ("atmelavr", "megaatmega2560"),
+             ("atmelavr", "digispark-tiny")]
+
+
+def ini_libs(libs, cpp, which=0):
     """lib_deps as written by write_project and read back with configparser."""
     import configparser
     import tempfile
@@ -83,7 +117,8 @@ def ini_libs(libs, cpp):
     from Reduino.toolchain.pio import write_project
 
     with tempfile.TemporaryDirectory(prefix="reduverif-c14-") as td:
-        write_project(Path(td), cpp, "COM3", lib_deps=libs)
+        platform, board = PLATFORMS[which % len(PLATFORMS)]
+        write_project(Path(td), cpp, "COM3", platform=platform, board=board, lib_deps=libs)
         cp = configparser.ConfigParser(interpolation=None)
         cp.read(Path(td) / "platformio.ini")
         sec = cp[cp.sections()[0]]
@@ -101,7 +136,8 @@ def run_case(case):
         out["rejected"] = str(e)
         return out
     out.update(libs=libs, incs=incs, lib_incs=lib_incs, classes=classes, cpp=cpp)
-    out["ini_libs"] = ini_libs(libs, cpp)
+    out["ini_libs"] = ini_libs(libs, cpp, idx)
+    out["platform"] = PLATFORMS[idx % len(PLATFORMS)]
     if link:
         with fw.Scratch() as wd:
             r = engine.firmware(cpp, wd, passes=2)
@@ -173,6 +209,25 @@ def main() -> int:
             rep.violation(msg, w, key=key)
         if len(rep.samples) < 3 and want and len(want) >= 2:
             rep.sample({"devices": cfg, "lib_deps": L, "includes": out["incs"], "classes": K})
+    # ---- one name re-bound to devices of different kinds: every declared library device still needs its library
+    for case, st, out in run_cases(run_rebind, REBIND):
+        if st != "ok":
+            rep.inconclusive_because(f"rebind case failed: {out[-300:]}")
+            continue
+        rep.count("rebind_cases")
+        if "rejected" in out:
+            rep.count("rebind_rejected")
+            continue
+        rep.case("rebind:" + out["label"], True)
+        want = set(out["want"])
+        w = {"script.py": out["script"], "sketch.cpp": out["cpp"]}
+        for view, got in (("lib_deps", out["libs"]), ("platformio.ini lib_deps", out["ini_libs"]), ("library headers", out["lib_incs"]), ("library classes", out["classes"])):
+            if set(got) != want:
+                msg = f"{out['label']}: {view} {sorted(set(got))} but the declared devices need {sorted(want)}"
+                if out["finding"] and out["finding"] in rep.open_findings:
+                    rep.known(out["finding"], msg, w)
+                else:
+                    rep.violation(msg, w, key="rebind:" + view)
     rep.rule = ("all combinations of 0-2 servos before the main loop x 0-2 servos at the top of its body x 0-2 parallel LCDs x 0-2 I2C LCDs x "
                 "{with, without} every other device kind x {with, without} actions (+ scripts without a main loop); the three views (lib_deps, "
                 "#include lines, library classes instantiated at global scope) compared as sets with the declared devices; a sample (quick) / "
